@@ -799,7 +799,7 @@ func main() {
 		rep.Inconclusive("cannot start loopback servers: %v", err)
 	} else {
 		for round := 0; round < rep.Pick(1, 10); round++ {
-			for _, proto := range []string{"udp", "tcp", "tcp+pipeline", "tls", "tls+pipeline", "https", "quic"} {
+			for _, proto := range []string{"udp", "tcp", "tcp+pipeline", "tls", "tls+pipeline", "https", "h3", "quic"} {
 				for _, pol := range []string{"inorder", "window", "dup", "stray", "late"} {
 					multi := proto == "udp" || strings.HasSuffix(proto, "+pipeline")
 					if !multi && (pol == "dup" || pol == "stray") {
